@@ -60,9 +60,10 @@ type gTerm struct {
 
 // GVal is the payload of a bn256.G1 / G2 / GT struct.
 type GVal struct {
-	grp   byte // '1' '2' 'T'
-	set   bool // internal point pointer non-nil
-	bad   bool // unmarshalled coordinates that are not on the curve
+	grp   byte    // '1' '2' 'T'
+	set   bool    // internal point pointer non-nil
+	bad   bool    // unmarshalled coordinates that are not on the curve
+	raw   []*Term // the coordinate bytes of such a point (Marshal gives them back)
 	terms []gTerm
 }
 
@@ -416,7 +417,7 @@ func (in *Interp) gUnmarshal(grp byte, s Slice) (GVal, bool, bool) {
 		in.P.bnFresh++
 		return GVal{grp: grp, set: true, terms: []gTerm{{fmt.Sprintf("X%03d", in.P.bnFresh), in.tt.IntI(1)}}}, false, true
 	case 1:
-		return GVal{grp: grp, set: true, bad: true}, true, true
+		return GVal{grp: grp, set: true, bad: true, raw: append([]*Term{}, bs[:n]...)}, true, true
 	}
 	zero := in.tt.True
 	for _, b := range bs[:n] {
@@ -474,7 +475,7 @@ func init() {
 				in.store(a[0].(*Ptr), x)
 			}
 			if x.bad {
-				panic(unsupported{"Marshal of a bn256 point that is not on the curve"})
+				return in.mkByteSlice(append([]*Term{}, x.raw...))
 			}
 			return in.gMarshal(x)
 		})
